@@ -2,6 +2,8 @@ package llvc
 
 import (
 	"fmt"
+	"path/filepath"
+	"sort"
 	"strings"
 
 	"bngvc/smt"
@@ -241,6 +243,12 @@ func (e *executor) execCall(fr *frame, st *State, in *Instr) error {
 			}
 			path = fmt.Sprintf("%s%s#%d@it%s/", fr.path, name, ord, strings.Join(s, "."))
 		}
+		hooks := e.callHooks(name)
+		var pre *State
+		callsStart := len(e.probes.calls)
+		if len(hooks) > 0 && e.mute == 0 {
+			pre = st.clone()
+		}
 		rv, out, err := e.execFunc(f, args, st, path, false)
 		if err != nil {
 			return err
@@ -256,10 +264,17 @@ func (e *executor) execCall(fr *frame, st *State, in *Instr) error {
 			}
 			st.regs[in.Res] = rv
 		}
+		if pre != nil && !st.pc.IsFalse() {
+			for _, ref := range hooks {
+				if err := e.callSpec(fr, f, st, pre, args, rv, callsStart, ref, path, fmt.Sprintf("%s#%d", name, ord)); err != nil {
+					return err
+				}
+			}
+		}
 		return nil
 	}
 	e.res.HelpersUsed[name] = true
-	cp := callProbe{kind: name, pc: st.pc, desc: e.descr(fr, tagOf(in))}
+	cp := callProbe{kind: name, pc: st.pc, desc: e.descr(fr, tagOf(in)), ghost: e.mute > 0}
 	switch name {
 	case "bpf_map_lookup_elem":
 		mi, err := e.mapOfPtr(args[0])
@@ -501,4 +516,119 @@ func (e *executor) rangeEvent(st *State, p *Ptr, n int) {
 			e.recordPktStore(st, pc, p.Off, n, nil)
 		}
 	}
+}
+
+// callHooks returns the functional specifications attached to calls of fn
+// that belong to this run.
+func (e *executor) callHooks(fn string) []FunctionalRef {
+	var out []FunctionalRef
+	for _, ref := range e.res.Spec.Functional {
+		if ref.Hook != "call:"+fn && ref.Hook != "call2:"+fn {
+			continue
+		}
+		if e.opts.AllFunctional || ref.Property == e.opts.Property {
+			out = append(out, ref)
+		}
+	}
+	return out
+}
+
+// callSpec generates the contract obligations of one inlined call.  For a
+// "call2:" hook the callee is executed a second time on the state the first
+// call left (same pointer arguments, fresh integer arguments arg<i>b, fresh
+// helper results), without recording obligations of its own: the
+// specification then relates two consecutive calls on the same memory.
+func (e *executor) callSpec(fr *frame, f *Function, post, pre *State, args []*Val, rv *Val, callsStart int, ref FunctionalRef, path, tag string) error {
+	extra := map[string]vsVal{}
+	probes := []NamedTerm{}
+	for i, a := range args {
+		if !a.IsPtr && a.W > 1 {
+			extra[fmt.Sprintf("arg%d", i)] = vsVal{a.T, a.W}
+		}
+	}
+	if rv != nil && !rv.IsPtr && rv.W > 1 {
+		extra["ret"] = vsVal{rv.T, rv.W}
+	}
+	hook := &hookCtx{pre: pre, post: post, args: args}
+	obligeAt := post
+	if strings.HasPrefix(ref.Hook, "call2:") {
+		st2 := post.clone()
+		args2 := make([]*Val, len(args))
+		for i, a := range args {
+			args2[i] = a
+			if !a.IsPtr && a.W > 1 {
+				args2[i] = e.fresh(fmt.Sprintf("%s_arg%db", smt.Sanitize(f.Name), i), a.W)
+				extra[fmt.Sprintf("arg%db", i)] = vsVal{args2[i].T, a.W}
+			}
+		}
+		e.mute++
+		savedCur, savedIters := fr.cur, fr.iters
+		rv2, out2, err := e.execFunc(f, args2, st2, path+"second/", false)
+		fr.cur, fr.iters = savedCur, savedIters
+		e.mute--
+		if err != nil {
+			return err
+		}
+		if out2.pc.IsFalse() {
+			return nil
+		}
+		if rv2 != nil && !rv2.IsPtr && rv2.W > 1 {
+			extra["ret2"] = vsVal{rv2.T, rv2.W}
+		}
+		hook.post2 = out2
+		out2.facts = post.facts
+		obligeAt = out2
+	}
+	hook.calls = e.probes.calls[callsStart:]
+	fs, err := e.loadFuncSpec(ref.File, extra, hook)
+	if err != nil {
+		return err
+	}
+	for k, v := range extra {
+		probes = append(probes, NamedTerm{k, v.t, v.w})
+	}
+	sort.Slice(probes, func(i, j int) bool { return probes[i].Name < probes[j].Name })
+	probes = append(probes, NamedTerm{"spec_scope", fs.Scope, 0})
+	probes = append(probes, fs.Defines...)
+	// bytes of the objects behind pointer arguments before/after the call(s), for the native replay
+	cr := &callReplay{fn: f.Name, twice: hook.post2 != nil}
+	for i, a := range args {
+		ca := callArg{w: a.W}
+		if a.IsPtr {
+			ca.ptr = true
+			us := e.usableCands(a.P)
+			off, isConst := bvConst(a.P.Off)
+			if len(us) == 1 && isConst && e.regions[us[0]].Kind != rkPacket && e.regions[us[0]].Size <= 512 && int64(off) <= e.regions[us[0]].Size {
+				ca.size = int(e.regions[us[0]].Size - int64(off))
+				for _, ph := range []struct {
+					tag string
+					st  *State
+				}{{"pre", pre}, {"post", post}, {"post2", hook.post2}} {
+					if ph.st == nil {
+						continue
+					}
+					for k := 0; k < ca.size; k++ {
+						p := &Ptr{Reg: a.P.Reg, Off: e.tm.addConst(a.P.Off, uint64(k)), OffUB: satAdd(a.P.OffUB, uint64(k)), Cands: a.P.Cands}
+						bv, err := e.loadMem(ph.st, p, 1)
+						if err != nil {
+							return err
+						}
+						probes = append(probes, NamedTerm{fmt.Sprintf("__%s_arg%d_%d", ph.tag, i, k), e.bitsOf(bv), 8})
+					}
+				}
+			}
+		}
+		cr.args = append(cr.args, ca)
+	}
+	if rv != nil {
+		cr.retW = rv.W
+	}
+	for _, c := range fs.Contracts {
+		cl := *obligeAt // contracts are independent claims
+		if o := e.oblige(fr, &cl, ref.Kind, tag+":"+c.Name, smt.Implies(fs.Scope, c.T), "contract "+c.Name+" of "+f.Name+" ("+filepath.Base(fs.File)+")"); o != nil {
+			o.probes = probes
+			o.callReplay = cr
+		}
+	}
+	return nil
 }
